@@ -69,8 +69,8 @@ def run(model, rep, tier):
     st = ci.methods['start']
     assigned = owner.self_attr_assigned(st, st.args.args[0].arg)
     for a in STATE:
-        ok = a in assigned and isinstance(assigned[a], ast.Assign)
-        rep.ob('start-total', mod, assigned.get(a, st), 'start rebinds self.%s' % a, ok,
+        ok = a in assigned and isinstance(assigned[a], ast.Assign) and getattr(assigned[a], '_parent', None) is st
+        rep.ob('start-total', mod, assigned.get(a, st), 'start rebinds self.%s unconditionally' % a, ok,
                '' if ok else 'start does not reset %s: state from the previous run leaks into the new one' % a, engine='owner')
     # fresh values for the derived ones
     for a in ('clustercount', 'occupied_set', 'unoccupied_set'):
@@ -272,3 +272,19 @@ def _trial(fn):
                         sign = signs.pop() if len(signs) == 1 else 0
                         out.append((unparse(lp.iter), guard, sign, iter_ok, inner))
     return out
+
+
+CL = 'onsager/cluster.py'
+BREAKERS = [
+    (CL, "                self.occupied_set.add(i)\n                for inter in self.siteinteract[i][:self.Ninteract[i]]:\n                    self.clustercount[inter] -= 1",
+     "                self.occupied_set.add(i)\n                for inter in self.siteinteract[i][:self.Ninteract[i]]:\n                    self.clustercount[inter] += 1", 'paired-flip'),
+    (CL, "                self.unoccupied_set.remove(i)\n                self.occupied_set.add(i)", "                self.occupied_set.add(i)", 'paired-flip'),
+    (CL, "        dE = 0\n        for interact, dcount in dclustercount.items():", "        self.lastdcount = dclustercount\n        dE = 0\n        for interact, dcount in dclustercount.items():", 'observer-pure'),
+    (CL, "        for i in occsites:\n            if self.occ[i] == 0:\n                self.occ[i] = 1", "        for i in occsites:\n            if True:\n                self.occ[i] = 1", 'paired-flip'),
+    (CL, "        self.clustercount = np.zeros_like(self.interactvalue, dtype=int)\n        occ_list", "        if self.clustercount is None: self.clustercount = np.zeros_like(self.interactvalue, dtype=int)\n        occ_list", None),
+    (CL, "                for inter in self.siteinteract[i][:self.Ninteract[i]]:\n                    if inter in dclustercount:\n                        dclustercount[inter] += 1\n                    else:\n                        dclustercount[inter] = 1",
+     "                for inter in self.siteinteract[i][:self.Ninteract[i]]:\n                    if inter in dclustercount:\n                        dclustercount[inter] -= 1\n                    else:\n                        dclustercount[inter] = -1", 'trial-mirrors-update'),
+]
+NEUTRALS = [
+    (CL, "                self.unoccupied_set.remove(i)\n                self.occupied_set.add(i)\n                for inter", "                self.occupied_set.add(i)\n                self.unoccupied_set.remove(i)\n                for inter"),
+]
